@@ -508,6 +508,8 @@ class DataFrame:
         return r
 
     def dropna(self, axis=0, how="any", subset=None, inplace=False, **kw):
+        if axis not in (0, "index"):
+            raise E.Unsupported("dropna: argument value outside the modelled subset")
         cols = list(subset) if subset is not None else list(self._data)
         for c in cols:
             if c not in self._data:
@@ -605,6 +607,8 @@ class DataFrame:
         return r
 
     def set_index(self, keys, drop=True, inplace=False, append=False, **kw):
+        if append:
+            raise E.Unsupported("set_index: argument value outside the modelled subset")
         r = self.copy()
         if isinstance(keys, Index):
             r.index = keys.copy()
@@ -646,6 +650,8 @@ class DataFrame:
 
     def sort_values(self, by, axis=0, ascending=True, inplace=False, kind="quicksort", na_position="last",
                     ignore_index=False, key=None):
+        if axis not in (0, "index") or na_position != "last" or key is not None:
+            raise E.Unsupported("sort_values: argument value outside the modelled subset")
         bb = by if isinstance(by, list) else [by]
         keycols = []
         for c in bb:
@@ -679,6 +685,8 @@ class DataFrame:
         return r
 
     def drop_duplicates(self, subset=None, keep="first", inplace=False, ignore_index=False):
+        if keep != "first":
+            raise E.Unsupported("drop_duplicates: argument value outside the modelled subset")
         cols = ([subset] if isinstance(subset, str) else list(subset)) if subset is not None else list(self._data)
         seen, pos = [], []
         for i in range(len(self.index)):
@@ -695,11 +703,15 @@ class DataFrame:
         return r
 
     def nlargest(self, n, columns, keep="first"):
+        if keep != "first":
+            raise E.Unsupported("nlargest: argument value outside the modelled subset")
         cols = columns if isinstance(columns, list) else [columns]
         order = sort_positions([self._data[c] for c in cols], False, stable=True)
         return self._take(order[:n])
 
     def nsmallest(self, n, columns, keep="first"):
+        if keep != "first":
+            raise E.Unsupported("nsmallest: argument value outside the modelled subset")
         cols = columns if isinstance(columns, list) else [columns]
         order = sort_positions([self._data[c] for c in cols], True, stable=True)
         return self._take(order[:n])
@@ -721,6 +733,8 @@ class DataFrame:
         return self.map(lambda v: v if is_na(v) else abs(v))
 
     def duplicated(self, subset=None, keep="first"):
+        if keep != "first":
+            raise E.Unsupported("duplicated: argument value outside the modelled subset")
         cols = ([subset] if isinstance(subset, str) else list(subset)) if subset is not None else list(self._data)
         seen, out = [], []
         for i in range(len(self.index)):
@@ -732,6 +746,8 @@ class DataFrame:
         return Series(out, index=self.index.copy())
 
     def melt(self, id_vars=None, value_vars=None, var_name=None, value_name="value", ignore_index=True):
+        if ignore_index is not True:
+            raise E.Unsupported("melt: argument value outside the modelled subset")
         idv = ([id_vars] if isinstance(id_vars, str) else list(id_vars)) if id_vars is not None else []
         vv = ([value_vars] if isinstance(value_vars, str) else list(value_vars)) if value_vars is not None else [
             c for c in self._data if c not in idv]
